@@ -24,9 +24,13 @@ def lib_states(resp, code, jumpdests):
         bad_key = False
         for ktree, gens in st["storage"]:
             if ktree[0] != "k":
-                bad_key = True
-                continue
-            k = te.cval(ktree)
+                # a key computed from constants (the generator uses one fixed expression per such key)
+                k = te.evaluate_state(ktree, code)
+                if k is None or k in storage:
+                    bad_key = True
+                    continue
+            else:
+                k = te.cval(ktree)
             g = list(gens)
             lead_unwritten = bool(g) and g[0][0] == "unwritten"
             if lead_unwritten:
@@ -187,8 +191,8 @@ def run(tier, seed, t0):
     return common.finish(
         PROP, tier, seed, res, "exploration",
         "random stack-safe loop-free programs (1-6 blocks, forward JUMP/JUMPI to constant targets, <= 5 JUMPIs) over "
-        "PUSH0..32, DUP1-16, SWAP1-16, POP, all ALU opcodes, PC, CODESIZE, word-aligned MSTORE/MLOAD, literal-key "
-        "SLOAD/SSTORE; operands biased to boundary constants; 3% of the programs embedded in code blobs of 24 576 .. 65 537 bytes; every stored state is compared with the matching path "
+        "PUSH0..32, DUP1-16, SWAP1-16, POP, all ALU opcodes, PC, CODESIZE, word-aligned MSTORE/MLOAD, SLOAD/SSTORE with "
+        "literal keys and with keys computed from constants (one fixed expression per key); operands biased to boundary constants; 3% of the programs embedded in code blobs of 24 576 .. 65 537 bytes; every stored state is compared with the matching path "
         "of the reference EVM (stack at all depths, memory words, per-key ordered storage writes). distinct = distinct "
         "bytecode; non-trivial = more than one path or >= 4 opcode families",
         t0, ["vlib/evmref.py and vlib/treeeval.py are correct EVM semantics",
